@@ -68,6 +68,8 @@ def run(prog, tier, extra=None):
     R5 = res.rule("C06.merkle-positional", "a merkle parent hashes left ++ right with no ordering between the children", floor=1)
     R7 = res.rule("C06.root-recomputed", "generate_merkle_root returns the stored header root only to lite clients; otherwise the root is computed from the transactions", floor=1)
     R6 = res.rule("C06.merkle-covers-all", "every carried transaction contributes at least one leaf to the merkle tree", floor=1)
+    R8 = res.rule("C06.leaf-fresh", "the transaction hash that becomes the merkle leaf and the signed message is recomputed from the content on every Block::generate", floor=3)
+    R9 = res.rule("C06.leaf-from-content", "a transaction whose merkle leaf is not computed from its content (type SPV: the leaf is read from its signature bytes) is never accepted by Transaction::validate", floor=1)
     R4 = res.rule("C06.verify-block", "verify_block forwards a fetched block only when decoded id and hash equal the advertised ones", floor=2)
 
     bv = BlockValidate(prog)
@@ -308,6 +310,85 @@ def run(prog, tier, extra=None):
                             mg.loc(bad[0]), {"path": describe_path(mg, bad)}))
         else:
             res.sample({"rule": R6, "loop": mg.loc(nb), "leaf_pushes": [mg.loc(x) for x in sorted(pushes)], "verdict": "every iteration pushes a leaf"})
+
+    # R8: the merkle leaf (and the message of the transaction signature) is Transaction.hash_for_signature. The binding of the block
+    # hash to the transaction content therefore needs that field to be a function of the current content whenever the block is
+    # validated: Block::generate calls Transaction::generate for every carried transaction, Transaction::generate always calls
+    # generate_hash_for_signature, and that function always overwrites the field ("only when still None" keeps a stale hash).
+    from ..fields import place_has_field as _phf
+    TXP = CORE + "consensus::transaction::Transaction::"
+    bg = prog.body(CORE + "consensus::block::Block::generate")
+    tg = prog.body(TXP + "generate")
+    hg = prog.body(TXP + "generate_hash_for_signature")
+    if bg is None or tg is None or hg is None:
+        raise LookupError("Block::generate / Transaction::generate / generate_hash_for_signature not found")
+    def bypass(body, sites, goals=None):
+        """a block of `goals` (default: the returns) reachable from the entry without entering a block of `sites`"""
+        if 0 in sites:
+            return None
+        r = body.reachable(0, blocked=set(sites))
+        hit = sorted(x for x in (goals if goals is not None else body.return_blocks()) if x in r and x not in sites)
+        return hit[0] if hit else None
+    # Block::generate -> Transaction::generate inside a loop over the transactions, before the root is computed
+    res.instance(R8)
+    tg_sites = [bb for bb, t in bg.calls() if (t.get("res") or t.get("callee") or "") == tg.path]
+    in_loop = [bb for bb in tg_sites if bg.innermost_loop_containing([bb]) is not None]
+    root_sites = {bb for bb, t in bg.calls() if (call_name(t) or "").endswith("Block::generate_merkle_root")}
+    if not in_loop:
+        res.add(Finding(R8, "C06.leaf-fresh|block-generate", "Block::generate no longer calls Transaction::generate for each carried transaction", bg.loc(0)))
+    elif root_sites and bypass(bg, {bg.innermost_loop_containing([x]) for x in in_loop}, root_sites) is not None:
+        res.add(Finding(R8, "C06.leaf-fresh|root-before-leaves", "Block::generate can compute the merkle root before the transactions regenerated their hashes", bg.loc(sorted(root_sites)[0])))
+    else:
+        res.sample({"rule": R8, "body": "Block::generate", "per_transaction_generate": [bg.loc(x) for x in in_loop], "verdict": "runs before the root is computed"})
+    # Transaction::generate -> generate_hash_for_signature on every path
+    res.instance(R8)
+    hs = {bb for bb, t in tg.calls() if (t.get("res") or t.get("callee") or "") == hg.path}
+    f8 = bypass(tg, hs)
+    if f8 is not None:
+        path = tg.find_path(0, {f8}, blocked=hs)
+        res.add(Finding(R8, "C06.leaf-fresh|conditional-rehash", "Transaction::generate can return without recomputing hash_for_signature: a transaction whose content changed after a hash "
+                        "was cached keeps the old merkle leaf and signed message, so the edited block still validates", tg.loc(path[-1]), {"path": describe_path(tg, path)}))
+    else:
+        res.sample({"rule": R8, "body": "Transaction::generate", "rehash": [tg.loc(x) for x in sorted(hs)], "verdict": "on every path"})
+    # generate_hash_for_signature overwrites the field on every path
+    res.instance(R8)
+    stores = {bb for bb, blk in enumerate(hg.blocks) for st in blk["s"] if st[0] == "=" and _phf(st[1], "transaction::Transaction", "hash_for_signature") is not None}
+    stores |= {bb for bb, t in hg.calls() if _phf(t["dest"], "transaction::Transaction", "hash_for_signature") is not None}
+    if not stores or bypass(hg, stores) is not None:
+        res.add(Finding(R8, "C06.leaf-fresh|conditional-store", "generate_hash_for_signature can return without overwriting hash_for_signature", hg.loc(0)))
+    else:
+        res.sample({"rule": R8, "body": "Transaction::generate_hash_for_signature", "stores": [hg.loc(x) for x in sorted(stores)], "verdict": "on every path"})
+
+    # R9: generate_hash_for_signature takes the leaf of an SPV-typed transaction from signature[0..32]. Such a stub stands in for any
+    # transaction with that hash without changing root, pre_hash, block hash or creator signature, so full validation (Block::validate
+    # -> Transaction::validate, also the pool's) must refuse the type: no edge on which transaction_type is known to be SPV may
+    # reach a possibly-true return. (Lite clients leave Block::validate at the SPV-mode exit and never get here.)
+    tvb = prog.body(TXP + "validate")
+    if tvb is None:
+        raise LookupError("Transaction::validate not found")
+    spv_leaf = any(st[0] == "=" and _phf(st[1], "transaction::Transaction", "hash_for_signature") is not None for blk in hg.blocks for st in blk["s"]) and \
+        gate.enum_compare_edges(prog, hg, Chaser(hg), "transaction::TransactionType", "transaction_type", {"SPV"})[1]
+    res.instance(R9)
+    if not spv_leaf:
+        res.sample({"rule": R9, "verdict": "generate_hash_for_signature has no SPV-specific leaf: every leaf is a hash of the content"})
+    else:
+        tvc = Chaser(tvb)
+        spv_edges, spv_sites = gate.enum_compare_edges(prog, tvb, tvc, "transaction::TransactionType", "transaction_type", {"SPV"})
+        bad9 = None
+        for (src, tgt) in sorted(spv_edges):
+            f9 = Explorer(tvb).explore(tgt, accept=gate.make_accept(tvb, return_true=True))
+            if f9:
+                kind, path = sorted(f9.items())[0]
+                bad9 = (src, path)
+                break
+        if bad9:
+            res.add(Finding(R9, "C06.leaf-from-content|spv-accepted", "Transaction::validate can return true for a transaction of type SPV, whose merkle leaf is read from its signature bytes "
+                            "instead of being computed from its content: a stub carrying another transaction's hash replaces that transaction in a signed full block without changing "
+                            "the root or the block hash, and the block is still accepted", tvb.loc(bad9[0]), {"path": describe_path(tvb, bad9[1])}))
+        elif not spv_edges:
+            res.not_decided.append("C06.leaf-from-content: Transaction::validate has no branch on the SPV type; SPV-typed transactions are judged by the rules for user transactions")
+        else:
+            res.sample({"rule": R9, "spv_branches": [tvb.loc(b) for b, _ in spv_sites], "verdict": "every SPV branch leads to rejection"})
 
     vb = prog.body(CORE + "verification_thread::VerificationThread::verify_block::{closure#0}")
     if vb is None:
